@@ -298,7 +298,7 @@ func c16() {
 	r0 := caseRand(run, 0)
 
 	// (1) model-generated listings, with function-boundary prefixes
-	nModel := run.N(1500, 60000)
+	nModel := run.N(6000, 120000)
 	for i := 0; i < nModel; i++ {
 		r := caseRand(run, 1+i)
 		a := []string{"x86_64", "i386"}[i%2]
@@ -366,7 +366,7 @@ func c16() {
 		add(&c16Case{kind: "truncated-line", arch: "i386", text: []byte(longL[:off])})
 	}
 	// (4) byte-level mutation of valid listings
-	nMut := run.N(1500, 100000)
+	nMut := run.N(6000, 200000)
 	for i := 0; i < nMut; i++ {
 		r := caseRand(run, 5000000+i)
 		a := []string{"x86_64", "i386"}[i%2]
